@@ -317,7 +317,21 @@ func c18Sequence(c *core.Ctx, idx int, nops int) {
 		case k < 13: // rename
 			a := pick(r.Intn(6) != 0)
 			b := pick(r.Intn(2) == 0)
-			if a == b {
+			if a == b || r.Intn(12) == 0 {
+				// a rename onto the DAG's own name, plain or with the extension spelled out: whatever
+				// the answer, the definition and its history are the ones it had
+				target := a
+				if r.Intn(2) == 0 {
+					target = a + ".yaml"
+				}
+				_, aok := e.model[a]
+				err := e.doRename(viaAPI, a, target)
+				e.ops = append(e.ops, fmt.Sprintf("%s rename %q -> %q (its own name) : %v", via, a, target, err))
+				c.Count("op_rename_onto_own_name", 1)
+				if !aok && err == nil {
+					e.violate("rename-missing-accepted", fmt.Sprintf("rename of the non-existing DAG %q was accepted", a))
+				}
+				e.checkAll("rename-onto-own-name")
 				continue
 			}
 			da, aok := e.model[a]
